@@ -17,6 +17,7 @@ import (
 	"net"
 	"net/http"
 	"path/filepath"
+	"reflect"
 	"sort"
 	"strconv"
 	"strings"
@@ -120,12 +121,30 @@ type sendFileStore struct {
 	config            SendFile
 }
 
+// sameFS reports whether two file systems are the same value. A plain == panics when both hold the
+// same uncomparable dynamic type (a map such as fstest.MapFS); those are compared by identity.
+func sameFS(a, b fs.FS) bool {
+	if a == nil || b == nil {
+		return a == nil && b == nil
+	}
+	va, vb := reflect.ValueOf(a), reflect.ValueOf(b)
+	if va.Type() != vb.Type() {
+		return false
+	}
+	switch va.Kind() { //nolint:exhaustive // only reference kinds need special care
+	case reflect.Map, reflect.Slice, reflect.Func:
+		return va.Pointer() == vb.Pointer()
+	default:
+		return va.Comparable() && vb.Comparable() && va.Equal(vb)
+	}
+}
+
 // compareConfig compares the current SendFile config with the new one
 // and returns true if they are different.
 //
 // Here we don't use reflect.DeepEqual because it is quite slow compared to manual comparison.
 func (sf *sendFileStore) compareConfig(cfg SendFile) bool {
-	if sf.config.FS != cfg.FS {
+	if !sameFS(sf.config.FS, cfg.FS) {
 		return false
 	}
 
